@@ -13,7 +13,7 @@ func init() {
 	register("C10", "Decides structural necessary conditions of 'the ASN.1 fork is as strict as upstream; lax only adds acceptances': "+
 		"(R1) lax propagation — the set of parameters that receive the lax flag is exactly {checkInteger, parseInt64, parseInt32, parseBigInt, parseObjectIdentifier, parsePrintableString, parseSequenceOf}; at every call site of these the lax argument is the caller's own incoming flag (its lax parameter or params.lax), never a constant; a taker that receives the flag inside a parameter structure instead of a bool is held to the rule for parseField's parameters at each of its call sites; every parseField call made by a function that has an incoming flag passes parameters whose lax field was set from it on all paths; the lax field is written only from an incoming flag or, in parseFieldParameters, as true under the tag part \"lax\"; Unmarshal is UnmarshalWithParams with the empty (strict) parameter string and the remainder is b[offset:]; "+
 		"(R2) monotonicity — lax-derived values condition branches only in checkInteger, parseObjectIdentifier, parsePrintableString; in each, for every valuation of all other branch atoms, what strict mode accepts lax mode accepts with the identical result, lax never rejects where strict accepts, and the outcomes differ only for the documented malformation (integer longer than one byte / empty OID / non-printable byte, accepted only if the bytes could be ISO 8859-1 or T.61); "+
-		"(R3) strict ≡ toolchain — with every lax operand replaced by false, each same-named function of asn1.go, common.go, marshal.go has the same multiset of rejection sites, error-propagating calls and returns under the same enclosing/preceding conditions, the same multiset of branch conditions (every if / for / range / switch clause, comparison orientation canonical; decisions in one normal form: tagless switch = if-chain, nested if = &&, a leaving `if a || b` = one if per disjunct, length > 0 = length != 0, keyed = positional struct literals, single-definition temporaries substituted, range over an integer = its counting loop when the bound is invariant, verb-less fmt.Errorf = errors.New, helper calls expanded by the source normaliser read in place where that is exact — run-once blocks, result temporaries, nil tests decided by what precedes them —, unexported package variables under another name matched by their definition, a parameter that every upstream caller derives from another argument read as that derivation) and the same multiset of assignments to named results and to variables that flow into returned values as encoding/asn1 of the toolchain that type-checks the repository, up to the frozen drift table in rules_c10.go (each entry with reason; acceptance-changing entries are marked); "+
+		"(R3) strict ≡ toolchain — with every lax operand replaced by false, each same-named function of asn1.go, common.go, marshal.go has the same multiset of rejection sites, error-propagating calls and returns under the same enclosing/preceding conditions, the same multiset of branch conditions (every if / for / range / switch clause, comparison orientation canonical; decisions in one normal form: tagless switch = if-chain, nested if = &&, a leaving `if a || b` = one if per disjunct, length > 0 = length != 0, keyed = positional struct literals, single-definition temporaries substituted, range over an integer = its counting loop when the bound is invariant, verb-less fmt.Errorf = errors.New, helper calls expanded by the source normaliser read in place where that is exact — run-once blocks, result temporaries, nil tests decided by what precedes them —, unexported package variables under another name matched by their definition, a parameter that every upstream caller derives from another argument read as that derivation, a fork parameter that every fork caller computes by a pure niladic time.Time / reflect.Type method from a value of upstream's parameter type read as that method applied inside, an unexported one-expression function that only one side has read as its expression at each call, a local that every return statement returns read as the named result, a switch over constants = the chain of == tests, a range over a slice variable (from a constant index) = its counting loop where nothing in the loop can write the elements, `x = new(T); *x = v` = `x = &i` for a once-defined otherwise unused local of the same loop iteration, strings.CutPrefix with a constant prefix = HasPrefix and the re-slice, an error temporary that is copied to a nil target right after its test read as the target, conjuncts and chain parts that an enclosing counting loop or a positive test of the same variable implies left out, the condition of an if taken together with the still valid conditions of the ifs whose bodies enclose it) and the same multiset of assignments to named results and to variables that flow into returned values as encoding/asn1 of the toolchain that type-checks the repository, up to the frozen drift table in rules_c10.go (each entry with reason; acceptance-changing entries are marked); "+
 		"(R4) raw preservation — parseField stores RawValue.FullBytes and RawContent as bytes[initOffset:offset] (sub-slice of the input ending at the returned offset) and Bytes as its content suffix; makeField emits non-empty FullBytes verbatim, makeBody emits a leading non-empty RawContent minus its header, bytesEncoder copies verbatim. "+
 		"NOT covered: acceptance/value equality with encoding/asn1 on all inputs (only that no check, propagation or return differs structurally), code without a rejection/return site (offset arithmetic, reflect stores), marshal∘unmarshal identity, absence of panics, allocation bounds, the semantics of reflect. The R3 verdict is relative to the installed toolchain's encoding/asn1 (version recorded in the assumptions).",
 		runC10)
@@ -37,6 +37,7 @@ func runC10(r *Run) {
 	}
 	c10R1(r, li)
 	c10R2(r, li)
+	r.Assume("R3 reads `for _, x := range s[k:]` as the counting loop with x = s[i] when nothing in the loop body can write an element of s (no store through an index or pointer of the element type, no call receiving a value through which the elements are reachable); elements written through package-level aliases of the slice's array during the loop are not seen")
 	c10R3(r, li)
 	c10R4(r)
 
